@@ -846,7 +846,20 @@ class Data(BaseCartesianData):
         ----------
         component_id : :class:`~glue.core.component_id.ComponentID`
             The component to remove.
+
+        Raises
+        ------
+           `ValueError`, if the component is one of the pixel or world
+           coordinate components, which are managed by the data set itself.
         """
+        if isinstance(self._components.get(component_id), CoordinateComponent):
+            raise ValueError("Pixel and world coordinate components are managed "
+                             "by the data set and cannot be removed: %s" % component_id)
+        self._remove_component(component_id)
+
+    def _remove_component(self, component_id):
+        # Remove a component of any kind, including the pixel and world
+        # coordinate components that the data set re-generates itself.
         # TODO: avoid too many messages when removing a component triggers
         # the removal of derived components.
         if component_id in self._components:
@@ -1174,7 +1187,7 @@ class Data(BaseCartesianData):
 
         with delay_callbacks():
             for cid in self._world_component_ids[:]:
-                self.remove_component(cid)
+                self._remove_component(cid)
                 self._world_component_ids.remove(cid)
             # The links between pixel and world components refer to the world
             # components that were just removed - they are re-generated below
@@ -1630,7 +1643,7 @@ class Data(BaseCartesianData):
         if ndim_changed:
             self.coords = None
             for cid in self._pixel_component_ids[:]:
-                self.remove_component(cid)
+                self._remove_component(cid)
                 self._pixel_component_ids.remove(cid)
 
         # Update shape
